@@ -15,7 +15,67 @@ FULL_LN = "reamber.algorithms.generate.full_ln.full_ln"
 
 
 def _fn(ctx):
-    return ctx.M.fn(FULL_LN)
+    return ctx.M.nfn(FULL_LN)        # private helpers inlined (sa/normal.py)
+
+
+def _row_paths(inner: ast.For):
+    """paths through the per-row body, tests and appended notes written over the row's inputs (sa/sympaths.py)"""
+    from .. import sympaths as SP
+    # the row values come out of numeric columns (NaN marks "no length" / "no next note"): none of them is None
+    rowvars = [t.id for t in inner.target.elts if isinstance(t, ast.Name)] if isinstance(inner.target, ast.Tuple) else []
+    return SP.enumerate_paths(inner.body, not_none=rowvars)
+
+
+def _set_sinks(fn):
+    _SINKS.clear()
+    _SINKS.update(_sinks(fn) or {"hits": "hits", "holds": "holds"})
+
+
+_SINKS: Dict[str, str] = {}      # accumulator name -> 'hits' | 'holds' (set per function by _sinks)
+
+
+def _sinks(fn) -> Dict[str, str]:
+    """which local lists end up, completely, in the result's hit list / hold list:
+    `m.hits = <HitList>.from_dict(N)` makes N a hit sink; `N.extend(L)` / `N += L` / `N = L` / `a, b = x, y` pass that on"""
+    kind: Dict[str, str] = {}
+    for n in walk_no_nested(fn.node):
+        if isinstance(n, ast.Assign) and isinstance(n.targets[0], ast.Attribute) and n.targets[0].attr in ("hits", "holds") and \
+                isinstance(n.value, ast.Call) and call_name(n.value) == "from_dict" and n.value.args and isinstance(n.value.args[0], ast.Name):
+            kind[n.value.args[0].id] = n.targets[0].attr
+    flows = []      # (into, from)
+    for n in walk_no_nested(fn.node):
+        if isinstance(n, ast.Expr) and isinstance(n.value, ast.Call) and call_name(n.value) == "extend" and \
+                isinstance(n.value.func.value, ast.Name) and n.value.args and isinstance(n.value.args[0], ast.Name):
+            flows.append((n.value.func.value.id, n.value.args[0].id))
+        if isinstance(n, ast.AugAssign) and isinstance(n.op, ast.Add) and isinstance(n.target, ast.Name) and isinstance(n.value, ast.Name):
+            flows.append((n.target.id, n.value.id))
+        if isinstance(n, ast.Assign) and len(n.targets) == 1:
+            t, v = n.targets[0], n.value
+            if isinstance(t, ast.Name) and isinstance(v, ast.Name):
+                flows.append((t.id, v.id))
+            if isinstance(t, ast.Tuple) and isinstance(v, ast.Tuple) and len(t.elts) == len(v.elts):
+                for a, b in zip(t.elts, v.elts):
+                    if isinstance(a, ast.Name) and isinstance(b, ast.Name):
+                        flows.append((a.id, b.id))
+    for _ in range(6):
+        for into, frm in flows:
+            if into in kind and frm not in kind:
+                kind[frm] = kind[into]
+    return kind
+
+
+def _note_appends(path) -> List[Tuple[str, ast.Call]]:
+    out = []
+    for e in path.effects:
+        for n in ast.walk(e):
+            if isinstance(n, ast.Call) and call_name(n) == "append" and isinstance(n.func.value, ast.Name) and n.func.value.id in _SINKS:
+                out.append((_SINKS[n.func.value.id], n))
+    return out
+
+
+def _note_fields(call: ast.Call):
+    from .. import sympaths as SP
+    return SP.dict_items(call.args[0]) if call.args else None
 
 
 def _row_loop(fn) -> Tuple[ast.For, ast.For]:
@@ -70,6 +130,7 @@ def rule_r1(ctx) -> List[R.Inst]:
     M = ctx.M
     rid = "C17.R1"
     fn = _fn(ctx)
+    _set_sinks(fn)
     file = M.mods[fn.mod].rel
     outer, inner = _row_loop(fn)
     insts = []
@@ -111,40 +172,42 @@ def rule_r1(ctx) -> List[R.Inst]:
     else:
         insts.append(R.ok(rid, "column-groups", file, outer.lineno, idiom="every column group reaches the per-row loop"))
     # every path appends exactly one note carrying the row's offset and column
-    paths = _branch_paths(inner.body)
-    bad = 0
-    for conds, stmts, ex in paths:
-        apps = [(nm, c) for nm, c in _appends(stmts) if nm in ("hits", "holds")]
-        cond_txt = " and ".join(("" if pol else "not ") + f"({unparse(t)})" for t, pol in conds) or "always"
+    try:
+        paths = _row_paths(inner)
+    except OverflowError:
+        insts.append(R.undec(rid, "paths", file, inner.lineno, "too many paths through the per-row body"))
+        return insts
+    for pth in paths:
+        apps = _note_appends(pth)
+        cond_txt = pth.cond_text()
         key = f"path:{cond_txt[:70]}"
-        if ex in ("break", "return", "opaque"):
+        ex = pth.exit
+        if ex in ("break", "return", "opaque", "raise"):
             insts.append(R.viol(rid, key, file, inner.lineno, f"a row path leaves the loop early ({ex}): later notes of the column are lost",
                                 construct=f"{cond_txt}: {ex}"))
-            bad += 1
             continue
         if len(apps) != 1:
             insts.append(R.viol(rid, key, file, inner.lineno,
                                 f"on the path [{cond_txt}] a note produces {len(apps)} output notes (must be exactly one)",
                                 construct=f"{cond_txt}: {len(apps)} appends"))
-            bad += 1
             continue
         nm, call = apps[0]
-        kw = ctor_kwargs(call.args[0]) if call.args else None
-        if not kw or unparse(kw.get("offset", ast.Constant(value=None))) != "offset" or \
+        kw = _note_fields(call)
+        if kw is None:
+            insts.append(R.undec(rid, key, file, inner.lineno, f"the appended note '{unparse(call)[:80]}' is not a dict of constant keys"))
+            continue
+        if unparse(kw.get("offset", ast.Constant(value=None))) != "offset" or \
                 unparse(kw.get("column", ast.Constant(value=None))) != "column":
-            insts.append(R.viol(rid, key, file, call.lineno, "the output note does not carry the input row's offset and column unchanged",
+            insts.append(R.viol(rid, key, file, getattr(call, "lineno", inner.lineno), "the output note does not carry the input row's offset and column unchanged",
                                 construct=unparse(call)))
-            bad += 1
             continue
         if nm == "holds" and "length" not in kw:
-            insts.append(R.viol(rid, key, file, call.lineno, "a hold is produced without a length", construct=unparse(call)))
-            bad += 1
+            insts.append(R.viol(rid, key, file, getattr(call, "lineno", inner.lineno), "a hold is produced without a length", construct=unparse(call)))
             continue
         if nm == "hits" and "length" in kw:
-            insts.append(R.viol(rid, key, file, call.lineno, "a hit is produced with a length", construct=unparse(call)))
-            bad += 1
+            insts.append(R.viol(rid, key, file, getattr(call, "lineno", inner.lineno), "a hit is produced with a length", construct=unparse(call)))
             continue
-        insts.append(R.ok(rid, key, file, call.lineno, idiom=f"exactly one {nm[:-1]}(offset, column{', length' if nm == 'holds' else ''})"))
+        insts.append(R.ok(rid, key, file, getattr(call, "lineno", inner.lineno), idiom=f"exactly one {nm[:-1]}(offset, column{', length' if nm == 'holds' else ''})"))
     return insts
 
 
@@ -152,6 +215,7 @@ def rule_r2(ctx) -> List[R.Inst]:
     M = ctx.M
     rid = "C17.R2"
     fn = _fn(ctx)
+    _set_sinks(fn)
     file = M.mods[fn.mod].rel
     outer, inner = _row_loop(fn)
     ps = params_of(fn.node)
@@ -221,68 +285,94 @@ def rule_r2(ctx) -> List[R.Inst]:
                                 construct=unparse(v)))
         else:
             insts.append(R.undec(rid, "gap-to-next", file, d[0].lineno, f"gap expression not recognised: {unparse(v)}"))
-    # (c) inv_length = diff - gap
-    il = local_defs(inner, "inv_length")
-    if len(il) == 1 and isinstance(il[0], ast.Call) and call_name(il[0]) in ("max", "min", "abs", "clip", "round", "int"):
-        insts.append(R.viol(rid, "hold-length", file, il[0].lineno,
-                            f"the length compared with the threshold is '{unparse(il[0])}', not (gap to next) - {gap} itself: clamping or "
-                            f"rounding changes the hit/hold decision (with threshold 0 a note closer than '{gap}' to the next one "
-                            f"becomes a zero-length hold instead of a hit)", construct=unparse(il[0])))
-    elif len(il) == 1 and sym.same_formula(il[0], f"diff - {gap}"):
-        insts.append(R.ok(rid, "hold-length", file, il[0].lineno, idiom=f"length = gap to next - {gap}: the hold ends exactly {gap} before the next note"))
-    elif len(il) == 1 and sym.only_modelled(il[0], {"diff", gap, thres}):
-        insts.append(R.viol(rid, "hold-length", file, il[0].lineno,
-                            f"a generated hold must end exactly '{gap}' before the next note: length = (gap to next) - {gap}",
-                            construct=unparse(il[0])))
-    else:
-        insts.append(R.undec(rid, "hold-length", file, inner.lineno, "hold length expression not recognised"))
-    # (d) decision table over the paths
-    paths = _branch_paths(inner.body)
+    # (c)/(d) over the paths of the per-row body, every test and every appended note written over the row's inputs
+    try:
+        paths = _row_paths(inner)
+    except OverflowError:
+        insts.append(R.undec(rid, "decision-table", file, inner.lineno, "too many paths through the per-row body"))
+        return insts
+    want_len = f"diff - {gap}"
+    compared = []          # the expressions compared with the threshold
+
+    def isnan_of(t, name):
+        return isinstance(t, ast.Call) and call_name(t) in ("isnan", "isna", "isnull") and len(t.args) == 1 and unparse(t.args[0]) == name
 
     def cls(t: ast.AST) -> Optional[str]:
-        u = unparse(t)
-        if u in ("np.isnan(diff)", "pd.isna(diff)", "isnan(diff)"):
+        if isnan_of(t, "diff"):
             return "last"
-        if u in ("np.isnan(length)", "pd.isna(length)", "isnan(length)"):
+        if isnan_of(t, "length"):
             return "was_hit"
         if isinstance(t, ast.Compare) and len(t.ops) == 1:
-            l, r = unparse(t.left), unparse(t.comparators[0])
+            l, r = t.left, t.comparators[0]
             op = type(t.ops[0])
-            # a local that folds the last-note case into the compared value: x = length if isnan(diff) else diff - gap
-            for side in (l, r):
-                ds = local_defs(inner, side) if side.isidentifier() else []
-                if len(ds) == 1 and isinstance(ds[0], ast.IfExp) and "isnan(diff)" in unparse(ds[0].test).replace("np.", "").replace("pd.", ""):
-                    return "folded"
-            if l == "inv_length" and r == thres:
-                return {ast.GtE: "long_enough", ast.Gt: "long_enough_strict", ast.Lt: "!long_enough", ast.LtE: "!long_enough_strict"}.get(op)
-            if r == "inv_length" and l == thres:
-                return {ast.LtE: "long_enough", ast.Lt: "long_enough_strict", ast.Gt: "!long_enough", ast.GtE: "!long_enough_strict"}.get(op)
+            if unparse(r) == thres:
+                other, tab = l, {ast.GtE: "long_enough", ast.Gt: "long_enough_strict", ast.Lt: "!long_enough", ast.LtE: "!long_enough_strict"}
+            elif unparse(l) == thres:
+                other, tab = r, {ast.LtE: "long_enough", ast.Lt: "long_enough_strict", ast.Gt: "!long_enough", ast.GtE: "!long_enough_strict"}
+            else:
+                return None
+            # the last-note case folded into the compared value: (length if isnan(diff) else diff - gap) >= threshold
+            if isinstance(other, ast.IfExp) and isnan_of(other.test, "diff"):
+                return "folded"
+            compared.append(other)
+            return tab.get(op)
         return None
     table = {}
-    und = False
-    for conds, stmts, ex in paths:
+    und = None
+    for pth in paths:
         facts = {}
-        for t, pol in conds:
+        for t, pol in pth.conds:
             c = cls(t)
             if c is None:
-                und = True
+                und = unparse(t)
+                continue
+            if c == "folded":
+                facts["folded"] = True
                 continue
             if c.startswith("!"):
                 c, pol = c[1:], not pol
             facts[c] = pol
-        apps = [(nm, call) for nm, call in _appends(stmts) if nm in ("hits", "holds")]
+        apps = _note_appends(pth)
         if len(apps) == 1:
-            kw = ctor_kwargs(apps[0][1].args[0]) or {}
-            table[tuple(sorted(facts.items()))] = (apps[0][0], unparse(kw["length"]) if "length" in kw else None)
-    folded = any(cls(t) == "folded" for conds, _, _ in paths for t, _ in conds)
+            kw = _note_fields(apps[0][1]) or {}
+            table[tuple(sorted(facts.items()))] = (apps[0][0], kw.get("length"))
+    # (c) the value compared with the threshold, and written as the generated hold's length: (gap to next) - gap, nothing else
+    cmp0 = compared[0] if compared else None
+    if cmp0 is None:
+        insts.append(R.undec(rid, "hold-length", file, inner.lineno, "hold length expression not recognised"))
+    elif isinstance(cmp0, ast.Call) and call_name(cmp0) in ("max", "min", "abs", "clip", "round", "int"):
+        insts.append(R.viol(rid, "hold-length", file, getattr(cmp0, "lineno", inner.lineno),
+                            f"the length compared with the threshold is '{unparse(cmp0)}', not (gap to next) - {gap} itself: clamping or "
+                            f"rounding changes the hit/hold decision (with threshold 0 a note closer than '{gap}' to the next one "
+                            f"becomes a zero-length hold instead of a hit)", construct=unparse(cmp0)))
+    elif sym.same_formula(cmp0, want_len):
+        insts.append(R.ok(rid, "hold-length", file, getattr(cmp0, "lineno", inner.lineno),
+                          idiom=f"length = gap to next - {gap}: the hold ends exactly {gap} before the next note"))
+    elif sym.only_modelled(cmp0, {"diff", gap, thres}):
+        insts.append(R.viol(rid, "hold-length", file, getattr(cmp0, "lineno", inner.lineno),
+                            f"a generated hold must end exactly '{gap}' before the next note: length = (gap to next) - {gap}",
+                            construct=unparse(cmp0)))
+    else:
+        insts.append(R.undec(rid, "hold-length", file, inner.lineno, "hold length expression not recognised"))
+    # (d) decision table
+    folded = any("folded" in dict(k) for k in table) or any(cls(t) == "folded" for pth in paths for t, _ in pth.conds)
     if folded:
         insts.append(R.viol(rid, "decision-table", file, inner.lineno,
                             "the last note of a column is sent through the threshold test with its own length: a final hold shorter than "
                             "the threshold is turned into a hit, although the last note keeps its kind and length",
                             construct="last-note case folded into the threshold comparison"))
-    elif und:
-        insts.append(R.undec(rid, "decision-table", file, inner.lineno, "a branch condition is not one of: last note / was a hit / long enough"))
+    elif und is not None:
+        insts.append(R.undec(rid, "decision-table", file, inner.lineno,
+                             f"a branch condition ('{und[:60]}') is not one of: last note / was a hit / long enough"))
     else:
+        def len_kind(e):
+            if e is None:
+                return None
+            if unparse(e) == "length":
+                return "length"
+            if sym.same_formula(e, want_len) or (cmp0 is not None and unparse(e) == unparse(cmp0)):
+                return "inv_length"
+            return unparse(e)
         want = {
             (("last", True), ("was_hit", True)): ("hits", None),
             (("last", True), ("was_hit", False)): ("holds", "length"),
@@ -290,14 +380,20 @@ def rule_r2(ctx) -> List[R.Inst]:
             (("last", False), ("long_enough", False)): ("hits", None),
         }
         strict = any("long_enough_strict" in dict(k) for k in table)
-        got = {tuple((a.replace("_strict", ""), b) for a, b in k): v for k, v in table.items()}
+        got = {tuple((a.replace("_strict", ""), b) for a, b in k): (v[0], len_kind(v[1])) for k, v in table.items()}
         probs = []
         if strict:
             probs.append("the threshold comparison is strict: a gap that leaves exactly the threshold length becomes a hit, the rule says 'at least'")
         for k, v in want.items():
             kk = tuple(sorted(k))
-            if got.get(kk) != v:
-                probs.append(f"case {dict(k)} yields {got.get(kk)} instead of {v}")
+            g = got.get(kk)
+            if g is None:
+                # the code may test more than the case needs (e.g. was_hit on a non-last note with the same outcome on both arms)
+                sup = [val for key_, val in got.items() if set(kk) <= set(key_)]
+                if sup and all(x == sup[0] for x in sup):
+                    g = sup[0]
+            if g != v:
+                probs.append(f"case {dict(k)} yields {g} instead of {v}")
         if probs:
             insts.append(R.viol(rid, "decision-table", file, inner.lineno, "; ".join(probs), construct="; ".join(probs)))
         else:
